@@ -121,14 +121,19 @@ def vol_block_length_chain(F, S):
 def vol_offsets(F, S, size_chain_ok=False):
     """Every stored block offset is a 64-bit value refused above UINT32_MAX; the arithmetic producing it cannot wrap."""
     out = []
-    ph = F.fn(VOL + "::PrepareHeader", nparams=2)
+    ph0 = F.fn(VOL + "::PrepareHeader", nparams=2)
+    # the offsets are laid out in PrepareHeader or in a helper it is split into: analyse the function that stores them
+    from ..through import closure
+    hosts = [f for f in closure(F, ph0) if sum(1 for nd in f.nodes if is_store(nd) and f.term(f.kids(nd["id"])[0])[0] == "mem"
+                                               and f.term(f.kids(nd["id"])[0])[2] == "dataBlockOffset") >= 2]
+    if len(hosts) != 1:
+        raise AnalysisBroken("PrepareHeader: expected stores to dataBlockOffset for the first and the following entries (in it or in one helper)")
+    ph = hosts[0]
     eng = Engine(F, S)
     eng.analyze(ph, frozenset())
     # IndexEntry::fileSize holds 0..2^31-1 once the member-size obligations are discharged (single guarded store)
     W = Width(ph, field_bits={"fileSize": 31} if size_chain_ok else None)
     stores = [nd for nd in ph.nodes if is_store(nd) and ph.term(ph.kids(nd["id"])[0])[0] == "mem" and ph.term(ph.kids(nd["id"])[0])[2] == "dataBlockOffset"]
-    if len(stores) < 2:
-        raise AnalysisBroken("PrepareHeader: expected stores to dataBlockOffset for the first and the following entries")
     for i, st in enumerate(stores):
         site = final_site_facts(eng, ph, st["id"]) or set()
         rhs = ph.kids(st["id"])[1]
@@ -152,7 +157,7 @@ def vol_offsets(F, S, size_chain_ok=False):
             out.append(bad("R-NARROW", inst, ph.loc(st["id"]), ph.qn, req, "no dominating bound on %s; facts: %s" % (fmt_term(v), facts_txt(site))))
     # the 64-bit accumulations feeding the guard are wrap-free by width
     for nd in ph.nodes:
-        if is_store(nd) and ph.term(ph.kids(nd["id"])[0])[0] == "var" and ph.term(ph.kids(nd["id"])[0])[1] == "dataBlockOffset":
+        if is_store(nd) and ph.term(ph.kids(nd["id"])[0]) in offset_locals(ph):
             rhs = ph.kids(nd["id"])[1]
             for (x, base) in W.arith_nodes(rhs):
                 inst = "%s::PrepareHeader#offset-arith:%s" % (VOL, fmt_term(ph.term(x)))
@@ -311,11 +316,21 @@ def check(F, run, tier):
         "construction of the output FileWriter (R-ORDER) and nothing that can refuse runs after it. CLM: data offsets, "
         "member count, name length <= 8 refused before writing. Frames: layer-count mismatch refused before the first write.")
     n = 0
+    from ..through import closure
+    swept = set()
     for q, np_ in SWEEP:
-        fn = F.fn(q, nparams=np_)
-        obs, k = r_narrow(F, S, fn, explicit_only=True)
-        run.add(obs)
-        n += k
+        primary = F.fn(q, nparams=np_)
+        for fn in closure(F, primary):       # the writer function and the helpers it is split into
+            if fn.key in swept:
+                continue
+            swept.add(fn.key)
+            obs, k = r_narrow(F, S, fn, explicit_only=True)
+            if fn.key != primary.key:
+                # helpers: the explicit casts only (their size_t accumulations of container sizes are not field stores)
+                obs = [o for o in obs if "accumulation in" not in o.required]
+                k = len(obs)
+            run.add(obs)
+            n += k
     run.floor("R-NARROW(sweep)", n, 19)
     obs, k = c14.r_narrow_prefix(F, S)
     run.add(obs)
